@@ -34,6 +34,7 @@ type hostileEv struct {
 	PipelineCond bool   `json:"pipelinecond"`
 	Detail       string `json:"detail"`
 	N            int    `json:"n"`
+	Req          string `json:"req"`
 }
 
 var hostileStrings = []string{"", " ", ":", "#", "@", "*", "a:", ":a", "a:b:c", "a#b#c", "a:b#", "a:*#r", "doc:1#viewer@x", "\x00", "a\x00b", "\n", "‮", "😀:😀", "%s%n", "../../etc", "doc:" + strings.Repeat("x", 300),
@@ -139,13 +140,17 @@ func HostileChild() {
 		case 0:
 			ev.Kind = "Check"
 			call = func() error {
-				_, err := s.Check(ctx, &openfgav1.CheckRequest{StoreId: env.StoreID, TupleKey: &openfgav1.CheckRequestTupleKey{Object: okStr("doc:1"), Relation: okStr("viewer"), User: okStr("user:a")}, Context: hctx, ContextualTuples: ctxt})
+				req := &openfgav1.CheckRequest{StoreId: env.StoreID, TupleKey: &openfgav1.CheckRequestTupleKey{Object: okStr("doc:1"), Relation: okStr("viewer"), User: okStr("user:a")}, Context: hctx, ContextualTuples: ctxt}
+				ev.Req = reqStr(req.GetTupleKey(), req.GetContextualTuples())
+				_, err := s.Check(ctx, req)
 				return err
 			}
 		case 1:
 			ev.Kind = "ListObjects"
 			call = func() error {
-				_, err := s.ListObjects(ctx, &openfgav1.ListObjectsRequest{StoreId: env.StoreID, Type: okStr("doc"), Relation: okStr("viewer"), User: okStr("user:a"), Context: hctx, ContextualTuples: ctxt})
+				req := &openfgav1.ListObjectsRequest{StoreId: env.StoreID, Type: okStr("doc"), Relation: okStr("viewer"), User: okStr("user:a"), Context: hctx, ContextualTuples: ctxt}
+				ev.Req = reqStr(map[string]string{"type": req.GetType(), "relation": req.GetRelation(), "user": req.GetUser()}, req.GetContextualTuples())
+				_, err := s.ListObjects(ctx, req)
 				return err
 			}
 		case 2:
@@ -344,4 +349,12 @@ func tailStr(s string, n int) string {
 		return s[len(s)-n:]
 	}
 	return s
+}
+
+func reqStr(parts ...any) string {
+	b, _ := json.Marshal(parts)
+	if len(b) > 700 {
+		b = b[:700]
+	}
+	return string(b)
 }
